@@ -38,6 +38,8 @@ CONFIGS = {
     # the killed run starts from the assignments saved by an earlier --keep_tmp run (--read_assignments <prefix>); every run has its own
     # copy of the saved files, because stage locks are written next to them
     "from-saved-assignments": dict(n_chroms=2, extra=[], saved=True),
+    # genes and transcripts inferred by the converter (no --complete_genedb): the conversion itself touches files under the output folder
+    "inferred-genes": dict(n_chroms=2, extra=[], complete=False, fresh_home=True),     # no cached conversion: the killed runs convert, too
     # one run over two experiments (--bam_list): crash points of the first experiment, between the experiments and of the second one
     "two-experiments": dict(n_chroms=2, extra=[], experiments=("EXA", "EXB")),
 }
@@ -64,7 +66,7 @@ def make_inputs(cfg, d, seed):
 
 
 def args_for(cfg, d, out, extra, saves=None):
-    a = pipeline.std_args(d, out, threads=1, annotated=cfg.get("annotated", True), extra=extra,
+    a = pipeline.std_args(d, out, threads=1, annotated=cfg.get("annotated", True), complete=cfg.get("complete", True), extra=extra,
                           bam_list=os.path.join(d, "exps.list") if cfg.get("experiments") else None)
     if cfg.get("gz"):
         a.remove("--no_gzip")
@@ -82,7 +84,7 @@ def run(chk, scratch):
                 "directory of a -t 1 run, after .params was written; the run is killed (os._exit) immediately before it and continued with --resume (every second point with --threads 3); "
                 "quick: every distinct call site (function, operation, file kind) of 2 configurations once + random fill; thorough: every crash "
                 "point of every configuration + multi-process kills. non-trivial = distinct call sites crashed at")
-    conf_names = list(CONFIGS) if thorough else ["multi-chrom-groups-exons", "annotation-free", "force-over-previous-run", "from-saved-assignments", "two-experiments"]
+    conf_names = list(CONFIGS) if thorough else ["multi-chrom-groups-exons", "annotation-free", "force-over-previous-run", "from-saved-assignments", "two-experiments", "inferred-genes"]
     total_points = 0
     executed = 0
     sites_seen = set()
@@ -175,7 +177,10 @@ def run(chk, scratch):
         def one(n):
             out = os.path.join(d, "crash%d" % n)
             home = os.path.join(d, "home%d" % n)
-            shutil.copytree(os.path.join(d, "home"), home)     # same annotation cache state as the clean run had at the end
+            if cfg.get("fresh_home"):
+                os.makedirs(home)
+            else:
+                shutil.copytree(os.path.join(d, "home"), home)     # same annotation cache state as the clean run had at the end
             if stale:
                 shutil.copytree(stale, out)
             sv = None
@@ -230,7 +235,10 @@ def run(chk, scratch):
             def prepared(tag):
                 out = os.path.join(d, "line_" + tag)
                 home = os.path.join(d, "home_line_" + tag)
-                shutil.copytree(os.path.join(d, "home"), home)
+                if cfg.get("fresh_home"):
+                    os.makedirs(home)
+                else:
+                    shutil.copytree(os.path.join(d, "home"), home)
                 if stale:
                     shutil.copytree(stale, out)
                 sv = None
